@@ -306,6 +306,10 @@ func runCheck(id, tier, repo, verif string, writeEvidence bool) int {
 			if strings.HasPrefix(name, "executed/bounded_") {
 				kind = "bounded"
 				name = "bounded/" + strings.TrimPrefix(name, "executed/bounded_")
+			} else if strings.HasPrefix(name, "executed/regress_") {
+				// the replayed counterexample of a repaired defect: must keep passing
+				kind = "regression"
+				name = "regression/" + strings.TrimPrefix(name, "executed/regress_")
 			}
 			cr.extras = append(cr.extras, extraResult{Name: name, Kind: kind, OK: ran && !f, Detail: truncate(out, 3000), Ms: time.Since(t0).Milliseconds()})
 		}
@@ -324,6 +328,10 @@ func runCheck(id, tier, repo, verif string, writeEvidence bool) int {
 		}
 		fmt.Fprintf(&b, "\n%s\n", detail)
 		suffix := " no-failing-input-found"
+		if kind == "executed" || kind == "bounded" || kind == "regression" {
+			// the failing test on the real code is itself the failing input
+			suffix = ""
+		}
 		if res != nil && res.Res.Verdict == "sat" {
 			if txt, failing := P.tryReplay(res, tmp); txt != "" {
 				b.WriteString("\n---- replay against the real code ----\n" + txt)
@@ -399,6 +407,9 @@ func runCheck(id, tier, repo, verif string, writeEvidence bool) int {
 			continue
 		}
 		detail := fmt.Sprintf("guard: %s\nmust hold: %s\n\nsolver output:\n%s", truncate(r.Obl.Guard, 400), truncate(r.Obl.Cond, 2000), truncate(r.Res.Output, 4000))
+		if r.Obl.Detail != "" {
+			detail = r.Obl.Detail + "\n\n" + detail
+		}
 		report(r.Obl.Name, r.Obl.Kind, detail, r)
 	}
 	for _, ex := range cr.extras {
